@@ -39,6 +39,16 @@ func repScenarios(thorough bool) []repScenario {
 	add("rotation-join-before", wRot, 0, 0)
 	add("rotation-join-after", wRot, 2*time.Second, 0)
 	add("restart", wNoTx, 0, 3*time.Second)
+	// writes that arrive alone, after the replica has caught up with everything before them
+	late := func(base []repOp, more ...repOp) []repOp { return append(append([]repOp{}, base...), more...) }
+	add("only-one-write", []repOp{{100 * ms, "put", "a", "a1"}}, 0, 0)
+	add("late-single-write", late(wNoTx, repOp{8 * time.Second, "put", "d", "d1"}), 0, 0)
+	add("late-two-writes", late(wNoTx, repOp{8 * time.Second, "put", "d", "d1"}, repOp{12 * time.Second, "del", "b", ""}), 0, 0)
+	// a transaction with more entries than one stream message carries, with writes on both sides
+	wBig := []repOp{{100 * ms, "put", "a", "a1"}, {200 * ms, "bigtx", "t", "t1"}, {300 * ms, "put", "b", "b1"}}
+	add("bigtx-join-before", wBig, 0, 0)
+	add("bigtx-join-after", wBig, 2*time.Second, 0)
+	add("tx-then-late-writes", late(w, repOp{8 * time.Second, "put", "d", "d1"}, repOp{8100 * ms, "put", "e", "e1"}), 0, 0)
 	return out
 }
 
